@@ -293,7 +293,7 @@ def run(ctx):
                    invariants=["RoundTrip", "SizesAdd", "Emit"])
     vectors += [v for v in res4.vectors if len(v["recs"]) >= 4]
     # very long records: 300 CIGAR operations, a read of 65 537 bases (fields whose upper bytes are zero in every short record)
-    resl = ctx.tlc("MC_C16", tag="MC_C16_long", spec="Spec", constants={"MaxRecs": 2, "Pick": [1, 11, 12] if quick else [1, 2, 11, 12]}, invariants=["RoundTrip", "SizesAdd", "Emit"])
+    resl = ctx.tlc("MC_C16", tag="MC_C16_long", spec="Spec", constants={"MaxRecs": 2, "Pick": [1, 11, 12, 13] if quick else [1, 2, 11, 12, 13]}, invariants=["RoundTrip", "SizesAdd", "Emit"])
     vectors += [v for v in resl.vectors if any(len(r["cigar"]) > 255 or len(r["seq"]) > 65535 for r in v["recs"])]
     for i, v in enumerate(vectors):
         v["_id"] = i
